@@ -31,6 +31,9 @@ type thread struct {
 	done    bool
 	parked  bool
 	started bool
+	// skipPoint: the thread has just been granted one alternative of a select; the point of the operation it
+	// performs next belongs to the same atomic step and does not yield
+	skipPoint bool
 }
 
 // Step is one real choice point (more than one enabled thread).
@@ -67,6 +70,7 @@ type Sched struct {
 	Blocked   []string
 	Crash     *Crash
 	Horizon   bool
+	Ambiguous string // set when a terminal state cannot be judged (see Select)
 	RaceAbort bool
 	MaxPts    int
 	teardown  bool
@@ -233,6 +237,13 @@ func PointTimed(name string, enabled func() bool, wakeAt func() time.Time) {
 		runtime.Goexit()
 	}
 	t := s.cur
+	if t.skipPoint {
+		t.skipPoint = false
+		if enabled == nil || enabled() {
+			t.h = mix(t.h, strHash(name))
+			return
+		}
+	}
 	t.enabled = enabled
 	t.wakeAt = wakeAt
 	t.opName = name
@@ -349,6 +360,13 @@ func (s *Sched) schedule(self *thread, exiting bool) {
 		}
 		if alive {
 			sort.Strings(s.Blocked)
+			for _, st := range s.chans {
+				if st.selSend > 0 && st.selRecv > 0 {
+					// two selects could have met on this unbuffered channel; the model does not pair them
+					s.Ambiguous = "a send case and a receive case of two blocked selects name the same unbuffered channel"
+					s.Horizon = true // no verdict on this execution
+				}
+			}
 			s.Deadlock = true
 			s.startTeardown()
 			if !exiting {
